@@ -142,6 +142,35 @@ func checkSer(R *vlib.Out, prop string, t *tmpl, hp, bp, tp []*pop) {
 			return
 		}
 	}
+	// a Set that is refused (the argument has a type the value cannot take; the generated setters drop
+	// that error) changes nothing: a populated field keeps its value, an unpopulated one stays off the wire
+	refused := 0
+	for i, n := range t.Body {
+		if n.Kind != 'k' {
+			continue
+		}
+		kv, ok := m.Body()[i].(*fix.KeyValue)
+		if !ok || kv.Value == nil {
+			continue
+		}
+		var err error
+		if pan := safely(func() { err = kv.Value.Set(foreignValue{}) }); pan != "" {
+			R.Violate("panic-in-mutator:refused-Set", pan+" "+describe(t), rp)
+			return
+		}
+		if err == nil {
+			R.Violate("refused-Set:accepted-a-foreign-type:"+n.Typ, describe(t), rp)
+			return
+		}
+		refused++
+	}
+	if refused > 0 {
+		R.Eval()
+		R.Count("mutation:refused-Set")
+		if !checkBytes(R, prop, t, hp, bp, tp, m, rp, "after:refused-Set:") {
+			return
+		}
+	}
 	// one more entry for the first populated body-level group
 	for i, n := range t.Body {
 		if n.Kind == 'g' && len(bp[i].Entries) > 0 {
@@ -159,6 +188,9 @@ func checkSer(R *vlib.Out, prop string, t *tmpl, hp, bp, tp []*pop) {
 		}
 	}
 }
+
+// foreignValue is a Go value no FIX value type can be set from
+type foreignValue struct{}
 
 func safely(f func()) (pan string) {
 	defer func() {
